@@ -4,7 +4,9 @@ from vlib.common import CheckerError, harness_many
 
 META = {
     "level": "other",
-    "structural": "Deductive part (lemmas over contracts, no code of their own; contracts/c_pipeline.py): from the postconditions of the stage contracts -- C03 (every function has exactly one unique "
+    "structural": "Deductive, on the code: the test that makes test_all_Fisher.convert_params recompute the numerical Hessian with the other step sizes is verified from its AST -- the retry is attempted "
+                  "whenever an entry of the first Hessian's diagonal is not positive, NaN or infinite (otherwise the best function of a library can lose its code length and its row). "
+                  "Deductive part (lemmas over contracts, no code of their own; contracts/c_pipeline.py): from the postconditions of the stage contracts -- C03 (every function has exactly one unique "
                   "entry), combine_DL R1 (the row of a unique function carries the minimum over its variants with a non-NaN description length, with the three terms of ONE variant), combine_DL R2 "
                   "(one row per unique function with a non-NaN minimum, rows sorted) and C05 (the likelihood reported for a variant is the likelihood of its own function at the reported "
                   "parameters) -- it follows for any library and data that the top-ranked description length is <= the description length of every variant of every tree, and that every row is "
@@ -97,6 +99,10 @@ def jobs(tier, seed):
     add("core_maths", 4, [dataset(seed, "core_maths", 4, n, pl, src, 0.1, X25) for n, pl, src in TRUTHS[("core_maths", 4)][:1]], P=12, sfx="-P12")
     # a truth whose unit-parameter probes (a0 = +-1) all have a pole on the data grid, while the truth itself (a0 = 3) is regular
     add("core_maths", 4, [dataset(seed, "core_maths", 4, "pole", "1/(a0 + x)", "1.0/(3.0 + t)", 0.02, XPM)], sfx="-xpm")
+    # a likelihood with a domain boundary (Poisson: the rate must be positive) next to the best-fit parameter: a0 = 0.005 on abscissae 10..1000. The default (absolute) step sizes of
+    # the numerical Hessian all cross the boundary; only the retry with relative steps gives the curvature of the best function
+    XBIG = [round(10.0 * (100.0 ** (i / 39.0)), 3) for i in range(40)]
+    add("core_maths", 3, [dataset(seed, "core_maths", 3, "smallrate", "a0*x", "0.005*t", 0, XBIG, pois=True)], cls="PoissonLikelihood", sfx="-xbig")
     if tier != "quick":
         for s in noises:
             add("core_maths", 5, [dataset(seed, "core_maths", 5, n, pl, src, s, X25) for n, pl, src in TRUTHS[("core_maths", 5)]], per_call=1)
@@ -141,6 +147,13 @@ def lemmas(run):
 def check(run):
     tier = run.tier
     lbad = lemmas(run)
+    # a tree keeps its row only if its curvature can be computed: the retry of the numerical Hessian with the other step sizes is attempted whenever the first one is unusable
+    from vlib import deductive as D
+    from contracts import c_fisher
+    gst, gfailed, _ge = D.verify_function(run, "fitting/test_all_Fisher.py", "convert_params", c_fisher.retry_guard_contract, timeout_ms=8000, tag="retry guard",
+                                          note="region: the TEST of the `if` that recomputes the Hessian with the other step sizes (its body is dropped: numdifftools is outside the verifier's reach)")
+    if gst == "proved" and D.canary(run, "fitting/test_all_Fisher.py", "convert_params", c_fisher.retry_guard_contract) is False:
+        raise CheckerError("canary verified: engine vacuous on the retry guard")
     js = jobs(tier, run.seed)
     calls = [("rt_c04.py", j, {"root": run.fresh_copy(), "timeout": 1200 if tier == "quick" else 3000}) for j in js]
     results = harness_many(run, calls, workers=14)
@@ -200,6 +213,11 @@ def check(run):
             run.violation(f["key"], "%s complexity %d, %s on %d rank(s), data set %s: %s" % (
                 j["runname"], j["comp"], j["cls"], j["P"], f.get("dataset"), f["error"][:1100]),
                 {"harness": "rt_c04.py", "payload": pay, "fresh_copy": True, "timeout": 3000})
+    if gfailed and not run.violations:
+        from checks.C14 import report_unproved
+        report_unproved(run, gfailed, False, "test_all_Fisher.convert_params (retry guard)")
+    elif gfailed:
+        run.notes.append("obligation no longer discharged: %s" % gfailed[0].clause)
     if lbad and not run.violations:
         nm, model = lbad[0]
         run.violation("c04:lemma:" + nm.split(":")[0], "composition lemma no longer follows from the stage contracts: %s" % nm,
